@@ -101,6 +101,14 @@ func die(format string, a ...any) {
 	os.Exit(3)
 }
 
+var t0 = time.Now()
+
+func phase(name string) {
+	if os.Getenv("C13_TIMING") != "" {
+		fmt.Fprintf(os.Stderr, "[%6.1fs] %s\n", time.Since(t0).Seconds(), name)
+	}
+}
+
 func goRun(dir string, timeout time.Duration, name string, args ...string) (string, int, bool) {
 	ctx, cancel := context.WithTimeout(context.Background(), timeout)
 	defer cancel()
@@ -145,6 +153,7 @@ func main() {
 		die("gozodgen does not build:\n%s", out)
 	}
 
+	phase("gozodgen built")
 	cells := matrixCells()
 	quotes := quoteCells(rng, c.Thorough())
 
@@ -177,21 +186,25 @@ func main() {
 		o.Close(nil)
 		return
 	}
+	phase("generated A + quotes")
 	analyseA(dirA, cells, quotes)
 	typecheckA(tmp, dirA, cells, quotes)
 
+	phase("typechecked A")
 	// ---- layout B + behaviour
 	dirB := filepath.Join(tmp, "b")
 	os.MkdirAll(dirB, 0o755)
 	runLayoutB(tmp, gen, dirB, cells)
 
+	phase("layout B built and run")
 	// ---- sample of layout A compiled and run per cell
-	nSample := 16
+	nSample := 12
 	if c.Thorough() {
 		nSample = 160
 	}
 	sample := sampleA(tmp, dirA, cells, rng, nSample)
 
+	phase("sample built and run")
 	// ---- emit
 	for _, ce := range cells {
 		o.Emit(fmt.Sprintf("c13 compile %s %s # struct C%d type=%s tag=%q expr=%s %s", ce.fty, ce.rules, ce.k, ce.gotype, ce.tag, ce.expr, ce.errmsg), ce.status)
@@ -515,12 +528,18 @@ func typecheckA(tmp, dir string, cells []*cell, quotes []*quoteCell) {
 		}
 	}
 	os.WriteFile(filepath.Join(qa, "cells.go"), []byte(qb.String()), 0o644)
+	// a deliberate type error of our own: the compiler reports every type error of the package
+	// (-gcflags=-e) and stops before code generation, which is all that is wanted here
+	stop := []byte("package main\n\nvar zzStopAfterTypeCheck int = \"type-check only\"\n")
+	os.WriteFile(filepath.Join(qa, "zz_stop.go"), stop, 0o644)
+	os.WriteFile(filepath.Join(dir, "zz_stop.go"), stop, 0o644)
+	defer os.Remove(filepath.Join(dir, "zz_stop.go"))
 	// inner_gen.go / inner_t_gen.go belong to the package as well
 	os.WriteFile(filepath.Join(dir, "main.go"), []byte("package main\n\nfunc main() {}\n"), 0o644)
 	out, rc, _ := goRun(tmp, 20*time.Minute, "go", "build", "-gcflags=-e", "-o", os.DevNull, "./a")
 	out2, rc2, _ := goRun(tmp, 20*time.Minute, "go", "build", "-gcflags=-e", "-o", os.DevNull, "./qa")
-	if rc == 0 && rc2 == 0 {
-		return
+	if rc == 0 || rc2 == 0 {
+		die("type-check-only build unexpectedly succeeded")
 	}
 	out += out2
 	bad := map[string]string{}
@@ -529,8 +548,10 @@ func typecheckA(tmp, dir string, cells []*cell, quotes []*quoteCell) {
 			bad[m[1]] = m[2]
 		}
 	}
-	if len(bad) == 0 {
-		die("layout A does not build and no error could be attributed to a generated file:\n%s", firstN(out, 3000))
+	for _, line := range strings.Split(out, "\n") { // every error must be ours or attributed to a generated file
+		if strings.Contains(line, ".go:") && !strings.Contains(line, "zz_stop.go") && !errLine.MatchString(line) {
+			die("layout A: an error could not be attributed to a generated file: %s", line)
+		}
 	}
 	for _, ce := range cells {
 		if msg, ok := bad[fmt.Sprintf("c%d", ce.k)]; ok && ce.status == "ok" {
@@ -580,6 +601,7 @@ func runLayoutB(tmp, gen, dir string, cells []*cell) {
 	if out, rc, _ := goRun(tmp, 2*time.Minute, gen, dir); rc != 0 {
 		die("gozodgen failed on layout B:\n%s", firstN(out, 2000))
 	}
+	normaliseStamps(dir)
 	// identical expressions?
 	for _, b := range blocks {
 		exprs, fset, err := fieldExprs(filepath.Join(dir, fmt.Sprintf("m%d_gen.go", b)))
@@ -610,7 +632,7 @@ func runLayoutB(tmp, gen, dir string, cells []*cell) {
 	rb.WriteString("}\n")
 	os.WriteFile(filepath.Join(dir, "runner.go"), []byte(rb.String()), 0o644)
 	bin := filepath.Join(tmp, "runnerB")
-	if out, rc, _ := goRun(tmp, 30*time.Minute, "go", "build", "-o", bin, "./b"); rc != 0 {
+	if out, rc, _ := goRun(tmp, 30*time.Minute, "go", "build", "-trimpath", "-o", bin, "./b"); rc != 0 {
 		die("layout B (only cells that type-check one by one) does not build:\n%s", firstN(out, 3000))
 	}
 	out, rc, _ := goRun(tmp, 10*time.Minute, bin)
@@ -642,6 +664,20 @@ func runLayoutB(tmp, gen, dir string, cells []*cell) {
 			if ce.g[pi] == "" {
 				die("runner reported nothing for %s %s probe %d", ce.fty, ce.rules, pi)
 			}
+		}
+	}
+}
+
+var stampRe = regexp.MustCompile(`(?m)^// Generated at: .*$`)
+
+// normaliseStamps rewrites the "// Generated at: <time>" comment of the generated files that are
+// compiled and run, so that the Go build cache can reuse the compiled package across runs.  The
+// files that are parsed and type-checked (layout A) are left exactly as gozodgen wrote them.
+func normaliseStamps(dir string) {
+	ms, _ := filepath.Glob(filepath.Join(dir, "*_gen.go"))
+	for _, m := range ms {
+		if src, err := os.ReadFile(m); err == nil {
+			os.WriteFile(m, stampRe.ReplaceAll(src, []byte("// Generated at: -")), 0o644)
 		}
 	}
 }
@@ -786,7 +822,7 @@ func main() {
 		if err != nil {
 			die("%v", err)
 		}
-		os.WriteFile(filepath.Join(dir, fmt.Sprintf("c%d_gen.go", ce.k)), src, 0o644) // the file gozodgen wrote, byte for byte
+		os.WriteFile(filepath.Join(dir, fmt.Sprintf("c%d_gen.go", ce.k)), stampRe.ReplaceAll(src, []byte("// Generated at: -")), 0o644) // the file gozodgen wrote, timestamp comment normalised
 		var probes []string
 		for _, p := range ce.probes {
 			probes = append(probes, strconv.Quote(p))
@@ -802,7 +838,7 @@ func main() {
 	os.WriteFile(filepath.Join(dir, "cells.go"), []byte(sb.String()), 0o644)
 	os.WriteFile(filepath.Join(dir, "runner.go"), []byte(rb.String()), 0o644)
 	bin := filepath.Join(tmp, "runnerS")
-	if out, rc, _ := goRun(tmp, 30*time.Minute, "go", "build", "-o", bin, "./s"); rc != 0 {
+	if out, rc, _ := goRun(tmp, 30*time.Minute, "go", "build", "-trimpath", "-o", bin, "./s"); rc != 0 {
 		die("sampled layout A cells (each type-checks) do not build:\n%s", firstN(out, 3000))
 	}
 	out, rc, _ := goRun(tmp, 10*time.Minute, bin)
